@@ -216,11 +216,11 @@ def gen(seed, V, tier, index, bias=None):
             if rng.random() < 0.6:
                 evs.append([n, ["init", name, "mass", False]])
                 have[n][name] = True
-        elif fam["private"] and r < 0.14 and len(tables_of(n)) > 1:
-            tt = rng.choice(tables_of(n)[1:])
+        elif fam["private"] and r < 0.14:
+            tt = rng.choice(tables_of(n))
             g = rng.choice(E.INIT_GROUPS)
             evs.append([n, ["init", tt, g, rng.random() < 0.2]])
-            if g == "mass":
+            if g == "mass" and tt != "public":
                 have[n][tt] = True
         elif fam["lookup"] and r < 0.40:
             evs.append([n, valid_lookup(rng, V, t, iso_ok)])
